@@ -498,9 +498,11 @@ fn check_weak(l: &mut Local, m: &SymModel, base: u64, ip: u64, got: &Rec) {
                 fail(l, "weak:isolated-func-not-reported", format!("FUNC f{i} overlaps nothing and contains the address, yet no function was reported"), m, base, ip, got);
             }
             // nothing reported: fine if there is no preceding PUBLIC, or some FUNC (kept or not is
-            // undefined for overlapping records) starts at/after the nearest PUBLIC and at/below the address
+            // undefined for overlapping records) starts at/after the nearest PUBLIC and at/below the address and
+            // does NOT contain the address (one that contains it is reported itself when kept, and cuts nothing
+            // off when discarded)
             if let Some(pa) = m.publics.iter().filter(|p| p.addr <= off).map(|p| p.addr).max() {
-                let may_cut = m.funcs.iter().any(|f| func_range(f).is_some() && f.addr >= pa && f.addr <= off);
+                let may_cut = m.funcs.iter().any(|f| func_range(f).is_some_and(|r| !(r.0 <= off && off <= r.1)) && f.addr >= pa && f.addr <= off);
                 if !may_cut {
                     fail(l, "weak:public-not-reported", format!("a PUBLIC at {pa:#x} precedes offset {off:#x} with no FUNC in between, yet nothing was reported"), m, base, ip, got);
                 }
